@@ -72,8 +72,14 @@ def run(ctx):
     ctx.assumptions = [
         "Kubernetes RBAC (SubjectAccessReview) is an abstract function authz(serviceAccount, namespace) per cluster; its 1-5 minute result cache in "
         "CredentialsController is sound because the outcome is constant during a case",
-        "ReferenceGrant evaluation (PushContext.SecretAllowed) is an abstract predicate; which Gateway configs attach to a proxy (selectors, "
-        "service instances) is an input of the refs stream",
+        "ReferenceGrant evaluation is the real gatewaycommon.ReferenceGrants.SecretAllowed over real gateway-api objects in the refs and stream "
+        "streams (model grantEval); the theorems about mergeGateways quantify over an arbitrary SecretAllowed predicate. Which Gateway configs "
+        "attach to a proxy (selectors, service instances, PILOT_SCOPE_GATEWAY_TO_NAMESPACE) is an input of the refs stream",
+        "the trust domain of a credential is never compared by checkConnectionIdentity (theorem trust_domain_not_compared): a credential of any "
+        "trust domain the authenticators accept binds by namespace/service account alone; which trust domains can authenticate is an input",
+        "other surfaces gated only by VerifiedIdentity != nil are outside this check: debug xDS (debuggen.go: syncz/config_dump of other proxies for "
+        "any verified non-system namespace), status generator (statusgen.go), ECDS wasm pull secrets (ecds.go) and the API generator (apigen.go)",
+        "CredentialsController.authorizationCache (per-user result cache, 1-5 min) is not modelled; sound for an RBAC outcome that is constant during a case",
         "the namespace comparison of checkConnectionIdentity is skipped when the proxy claims no namespace at all (no NAMESPACE metadata and a "
         "dot-less DNS domain): identity_binding binds the namespace only when ConfigNamespace is non-empty; such a proxy is treated as namespace \"\"",
         "proxy.Metadata.ClusterID is client-claimed: RBAC is evaluated in the claimed (configured) cluster and kubernetes:// lookups fall back to the "
@@ -98,7 +104,7 @@ def run(ctx):
     ctx.diff_stream("stream", ctx.n(300, 4000), oracle=oracle)
     ctx.diff_stream("parse", ctx.n(3000, 60000), oracle=oracle)
     ctx.diff_stream("refs", ctx.n(3000, 60000), oracle=oracle)
-    ctx.diff_stream("sds", ctx.n(700, 8000), oracle=oracle)
+    ctx.diff_stream("sds", ctx.n(600, 8000), oracle=oracle)
     # second line: the property oracle on every generated and corpus case, independent of the model
     for stream in STREAMS:
         files = []
@@ -165,15 +171,21 @@ MANIFEST = {
                    "answer equals the cache-free specification). The model is tied to /repo on every run by a line-by-line differential against "
                    "the real functions, including real ADS and delta streams through DiscoveryServer.Stream/StreamDeltas."),
     "level_note": ("Trusted: Lean kernel + {propext, Classical.choice, Quot.sound}; the hand-written model (tied by differential testing: streams auth, "
-                   "stream, parse, refs, sds on the real code, ~11000 cases quick); the verif-tagged accessor files pilot/pkg/xds/zz_verif_c11.go and "
+                   "stream, parse, refs, sds on the real code, ~10900 cases quick); the verif-tagged accessor files pilot/pkg/xds/zz_verif_c11.go and "
                    "pilot/pkg/model/zz_verif_c11.go; client-go fakes and fake gRPC streams. Caveats: (1) a client that claims no namespace at all "
                    "(no NAMESPACE metadata, dot-less DNS domain) is accepted with any parsable credential and treated as namespace \"\" - the "
                    "namespace half of identity_binding is conditional on a non-empty ConfigNamespace (its VerifiedIdentity, and hence SDS, is "
                    "still the credential's); (2) an unauthenticated (plaintext, nil identities) stream skips the check and only secrets are "
                    "withheld from it; (3) proxy.Metadata.ClusterID is client-claimed: RBAC is evaluated by the claimed configured cluster and "
-                   "kubernetes:// lookups fall back to the config cluster's namespace of the same name without that cluster's RBAC. Kubernetes "
-                   "RBAC is an abstract authz function checked through a fake SubjectAccessReview authoriser (exact attributes, API-error mode), "
-                   "ReferenceGrant evaluation (SecretAllowed) an abstract predicate, gateway-to-proxy attachment an input; TLS authentication that "
+                   "kubernetes:// lookups fall back to the config cluster's namespace of the same name without that cluster's RBAC; (4) the trust "
+                   "domain of the credential is never compared (trust_domain_not_compared): spiffe://other-td/ns/ns1/sa/x binds as ns1 if the "
+                   "authenticators accept that trust domain; (5) NOT covered: the other release surfaces gated only by VerifiedIdentity != nil - "
+                   "debug xDS (debuggen.go, other proxies' config for any verified non-system namespace), statusgen.go, ECDS wasm pull secrets "
+                   "(ecds.go), apigen.go - so the first clause (\"obtains configuration only as...\") is tied through ConfigNamespace and SDS only; "
+                   "(6) the per-user authorizationCache of CredentialsController is not modelled (constant RBAC outcome assumed). Kubernetes "
+                   "RBAC is an abstract authz function checked through a fake SubjectAccessReview authoriser (exact attributes, API-error mode); "
+                   "ReferenceGrant evaluation is driven for real (gateway-api objects -> ReferenceGrantsCollection -> SecretAllowed) and modelled "
+                   "(grantEval), gateway-to-proxy attachment is an input; TLS authentication that "
                    "yields the identity list is an input; private-key-provider configs, CRL/OCSP fields and secret updates with cache "
                    "invalidation are not modelled."),
     "technique": "Lean 4 theorems over an exact model of identity binding, verified-reference computation and SDS release + differential correspondence with the real Go functions and real xDS streams",
